@@ -229,6 +229,10 @@ func runProperty(prop *propertySpec, ctxs []*Ctx, known *knownFile, tier, evdir,
 func registry() []*propertySpec {
 	ps := []*propertySpec{}
 	ps = append(ps, cacheProperties()...)
+	ps = append(ps, hashProperties()...)
+	ps = append(ps, fsProperties()...)
+	ps = append(ps, envProperties()...)
+	ps = append(ps, graphProperties()...)
 	sort.Slice(ps, func(i, j int) bool { return ps[i].ID < ps[j].ID })
 	return ps
 }
